@@ -455,8 +455,8 @@ theorem blk_inv {e : Event} {spi0 : List Spi} {T : List LEv} {a b : Node} {l : L
       · exact Or.inl h
     · show a.store.prepares <+: (a.store.storePP ppm).prepares
       rw [storePP_prepares]; exact List.prefix_refl _
-  | voteSend vc rcpt hv hp _ _ => exact ginv_vote hfit hT vc true hp (Quiet.refl a) rfl
-  | voteStore vc hv hp hown _ _ =>
+  | voteSend vc rcpt hv hp _ _ _ => exact ginv_vote hfit hT vc true hp (Quiet.refl a) rfl
+  | voteStore vc hv hp hown _ _ _ =>
     refine ginv_vote hfit hT vc false hp ⟨rfl, Nat.le_refl _, Nat.le_refl _, rfl, storeVC_pps _ _, ?_⟩ rfl
     show a.store.prepares <+: (a.store.storeVC vc).prepares
     rw [storeVC_prepares]; exact List.prefix_refl _
@@ -659,8 +659,8 @@ theorem blk_accOnce {e : Event} {spi0 : List Spi} {T : List LEv} {a b : Node} {l
   | late _ _ _ _ _ => exact accOnce_cons_other h rfl
   | decide _ _ _ _ _ _ _ _ _ _ => exact accOnce_cons_other h rfl
   | propose ppm f o hh hv hnone hlnv hf ho hown hsrc hreq hblk hmsg => exact accOnce_cons_acc hT h _ _ _ (by rw [hv]; exact hnone)
-  | voteSend _ _ _ _ _ _ => exact accOnce_cons_other h rfl
-  | voteStore _ _ _ _ _ _ => exact accOnce_cons_other h rfl
+  | voteSend _ _ _ _ _ _ _ => exact accOnce_cons_other h rfl
+  | voteStore _ _ _ _ _ _ _ => exact accOnce_cons_other h rfl
 
 theorem runs_accOnce {e : Event} {spi0 : List Spi} {w w' : Term.W} {g : List LEv} (hr : Runs e spi0 w w' g) :
     ∀ {T : List LEv}, C06.Fits w.n.cfg.members → GInv T w.n → AccOnce T → AccOnce (g.reverse ++ T) := by
